@@ -114,6 +114,7 @@ class _WFile:
         if self._closed:
             raise ValueError('I/O operation on closed file.')
         if self._pending:
+            self._fs._yield('write', self._rel)
             data = self._pending[0][:0].join(self._pending)
             self._pending = []
             self._fs._write(self, data)
@@ -191,7 +192,8 @@ class _WFile:
 
 
 class FaultFS:
-    def __init__(self, root, crash_at=None, cut=0, mode='none'):
+    def __init__(self, root, crash_at=None, cut=0, mode='none', gate=None):
+        self.gate = gate  # optional TurnGate: every intercepted call of a registered thread is a yield point
         if mode not in ('none', 'crash', 'exit', 'enospc'):
             raise FaultFSError(f'unknown mode {mode}')
         self.root = os.path.abspath(_fspath(root))
@@ -280,6 +282,11 @@ class FaultFS:
         if self.dead:
             raise SimulatedCrash(self.n)
 
+    def _yield(self, op, p):
+        """Schedule point (only with a gate): the calling worker thread waits for its turn."""
+        if self.gate is not None:
+            self.gate.point(op, os.path.relpath(p, self.root) if os.path.isabs(p) else p)
+
     def _step(self, op, rel, size=None):
         """Number one state-changing operation; inject the fault if it is the chosen one.
 
@@ -345,6 +352,7 @@ def _open(file, mode='r', *args, **kwargs):
     if p is None:
         return _REAL_OPEN(file, mode, *args, **kwargs)
     fs._alive()
+    fs._yield('open:' + mode, p)
     if not any(c in mode for c in 'wax+'):
         return _REAL_OPEN(file, mode, *args, **kwargs)
     there = os.path.exists(p)
@@ -369,6 +377,7 @@ def _os_mkdir(path, *args, **kwargs):
     if p is None:
         return _REAL_OS['mkdir'](path, *args, **kwargs)
     fs._alive()
+    fs._yield('mkdir', p)
     if _exists(p) or not os.path.isdir(os.path.dirname(p)):
         return _REAL_OS['mkdir'](path, *args, **kwargs)  # raises, no change
     fs._step('mkdir', fs.rel(p))
@@ -381,6 +390,7 @@ def _os_open(path, flags, *args, **kwargs):
     if p is None:
         return _REAL_OS['open'](path, flags, *args, **kwargs)
     fs._alive()
+    fs._yield('os.open', p)
     there = _exists(p)
     if flags & os.O_CREAT and flags & os.O_EXCL and there:
         return _REAL_OS['open'](path, flags, *args, **kwargs)  # raises FileExistsError
@@ -433,6 +443,7 @@ def _two_paths(name):
         if ps is None and pd_ is None:
             return real(src, dst, *args, **kwargs)
         fs._alive()
+        fs._yield(name, pd_ if pd_ is not None else ps)
         if name in ('symlink', 'link') and pd_ is not None and _exists(pd_):
             return real(src, dst, *args, **kwargs)  # raises FileExistsError
         if name in ('rename', 'replace', 'link') and ps is not None and not _exists(ps):
@@ -455,6 +466,7 @@ def _one_path(name, numbered=True):
         if p is None:
             return real(path, *args, **kwargs)
         fs._alive()
+        fs._yield(name, p)
         if numbered:
             if not _exists(p):
                 return real(path, *args, **kwargs)  # raises FileNotFoundError
@@ -579,3 +591,143 @@ def snapshot_tree(root):
                 with _REAL_OPEN(p, 'rb') as f:
                     out[r] = ('file', f.read())
     return out
+
+
+# ---------------------------------------------------------------------------------------------
+# schedule-owning gate for a few worker threads (used together with FaultFS(gate=...))
+
+
+class GateTimeout(Exception):
+    """A worker did not reach its next schedule point in time (inconclusive, never a violation)."""
+
+
+class TurnGate:
+    """Turn taking between registered worker threads at the granularity of the intercepted
+    file-system calls (and of lock acquisition attempts, see `cooperative_path_lock`).
+
+    Exactly one worker runs between two schedule points; all others are parked.  The scheduler
+    (`run`, called in the controlling thread) picks the next worker from `choices`
+    (choices[i] % number of eligible workers; 0 when exhausted).  A worker whose non-blocking
+    lock attempt failed is not eligible again until another worker has taken a step."""
+
+    def __init__(self, choices, timeout=10.0, max_steps=400):
+        import threading
+
+        self._threading = threading
+        self.cv = threading.Condition()
+        self.choices = list(choices)
+        self.timeout = timeout
+        self.max_steps = max_steps
+        self.state = {}  # tid -> 'new' | 'parked' | 'running' | 'done'
+        self.blocked = set()
+        self.idents = {}
+        self.turn = None
+        self.free = False  # give up scheduling: every point passes
+        self.trace = []  # (tid, op, path)
+        self.contended = 0
+
+    # -- worker side ---------------------------------------------------------------------------
+    def expect(self, tid):
+        self.state[tid] = 'new'
+
+    def register(self, tid):
+        self.idents[self._threading.get_ident()] = tid
+        self.point('start', '')
+
+    def _tid(self):
+        return self.idents.get(self._threading.get_ident())
+
+    def is_worker(self):
+        return self._tid() is not None and not self.free
+
+    def point(self, op, path):
+        tid = self._tid()
+        if tid is None or self.free:
+            return
+        with self.cv:
+            self.state[tid] = 'parked'
+            self.cv.notify_all()
+            while self.turn != tid and not self.free:
+                self.cv.wait(0.5)
+            if self.free:
+                return
+            self.turn = None
+            self.state[tid] = 'running'
+            self.trace.append((tid, op, path))
+
+    def mark_blocked(self):
+        tid = self._tid()
+        if tid is None:
+            return
+        with self.cv:
+            self.blocked.add(tid)
+            self.contended += 1
+
+    def finish(self, tid):
+        with self.cv:
+            self.state[tid] = 'done'
+            self.cv.notify_all()
+
+    # -- scheduler side --------------------------------------------------------------------------
+    def release_all(self):
+        with self.cv:
+            self.free = True
+            self.cv.notify_all()
+
+    def run(self):
+        """-> 'done' | 'deadlock'; raises GateTimeout."""
+        i = 0
+        while True:
+            with self.cv:
+                ok = self.cv.wait_for(lambda: all(s in ('parked', 'done') for s in self.state.values()), self.timeout)
+                if not ok:
+                    self.free = True
+                    self.cv.notify_all()
+                    raise GateTimeout(f'worker states {self.state} after {len(self.trace)} steps')
+                live = [t for t in sorted(self.state) if self.state[t] == 'parked']
+                if not live:
+                    return 'done'
+                elig = [t for t in live if t not in self.blocked]
+                if not elig:
+                    self.free = True
+                    self.cv.notify_all()
+                    return 'deadlock'
+                if len(self.trace) >= self.max_steps:
+                    self.free = True
+                    self.cv.notify_all()
+                    raise GateTimeout(f'more than {self.max_steps} steps')
+                c = self.choices[i] if i < len(self.choices) else 0
+                i += 1
+                t = elig[int(c) % len(elig)]
+                self.blocked -= {x for x in self.blocked if x != t}
+                self.state[t] = 'running'
+                self.turn = t
+                self.cv.notify_all()
+
+
+def cooperative_path_lock(gate, real_path_lock, would_block):
+    """A drop-in for pharmpy's path_lock: a worker never blocks inside the lock; it tries without
+    blocking at a schedule point and, when that fails, gives the turn away and retries later.
+    Other threads (and every thread once the gate runs free) use the real blocking lock."""
+    from contextlib import ExitStack, contextmanager
+
+    @contextmanager
+    def path_lock(path, shared=False, blocking=True, reentrant=False):
+        if not gate.is_worker() or not blocking:
+            with real_path_lock(path, shared=shared, blocking=blocking, reentrant=reentrant) as fd:
+                yield fd
+            return
+        with ExitStack() as stack:
+            while True:
+                gate.point('lock:' + ('sh' if shared else 'ex'), os.path.basename(str(path)))
+                if gate.free:
+                    fd = stack.enter_context(real_path_lock(path, shared=shared, blocking=True, reentrant=reentrant))
+                    break
+                try:
+                    fd = stack.enter_context(real_path_lock(path, shared=shared, blocking=False, reentrant=reentrant))
+                    break
+                except would_block:
+                    gate.mark_blocked()
+            yield fd
+
+    return path_lock
